@@ -19,7 +19,7 @@ func init() {
 		ID:          "C18",
 		Explanation: "Decided (configuration table, constants folded by go/types and compared with the repository's own documentation): the go/build.Context used for user packages has Compiler gc, cgo disabled, the user tags followed by exactly the always-on tags netgo, purego, math_big_pure_go, gopherjs, and release tags truncated at the supported Go version, which agrees between the GoVersion constant, the Version string, the version_check build constraint, the go directive of go.mod and the versionhack package; the default environment is js/ecmascript unless overridden; standard-library packages are loaded as js/wasm exactly under the isStd test; user tags flow from the options into the context; .inc.js discovery filters by suffix and leading _ or . only. NOT decided: go/build's evaluation of constraint expressions and file-name suffixes (trusted).",
 		Assumptions: []string{"go/build evaluates //go:build expressions and _GOOS/_GOARCH suffixes as documented"},
-		Rules:       []RuleFunc{ruleC18Config, ruleC18CLI, ruleC18ToolTags, ruleC18IsStdByLookup},
+		Rules:       []RuleFunc{ruleC18Config, ruleC18CLI, ruleC18ToolTags, ruleC18IsStdByLookup, ruleC18TagsSplit},
 	})
 }
 
